@@ -15,9 +15,9 @@ PLAN = {
     'native': {'bridges': ['replay/bridge_proc.cpp']},
     'fidelity_samples': {'quick': 3000, 'thorough': 100000},
     'obligations': [ob('h_rep_base', 2), ob('h_rep_step', 3, {'defines': ['-DAM_CELLS=1', '-DAM_PCELLS=2']}), ob('h_bkrep_base', 2),
-                    ob('h_bkrep_depth', 1, {'canary': False, 'expect_classes': {'assertion': 1}}), ob('h_bkrep_step', 4, {'defines': ['-DAM_CELLS=1', '-DAM_PCELLS=2']}), ob('h_break', 1), ] + [ob('h_frame_roundtrip', 3, {'id': 'frame_roundtrip_sp%d_depth%d' % (v, dp), 'defines': ['-DFRAME_VIA_SP=%d' % v, '-DFRAME_DEPTH=%d' % dp, '-DAM_CELLS=4', '-DAM_PCELLS=1'], 'timeout': 600, 'tier': 'quick' if v == 1 else 'thorough'}) for v in (0, 1) for dp in range(5)],
+                    ob('h_bkrep_depth', 1, {'canary': False, 'expect_classes': {'assertion': 1}}), ob('h_bkrep_step', 5, {'defines': ['-DAM_CELLS=1', '-DAM_PCELLS=2']}), ob('h_break', 1), ] + [ob('h_frame_roundtrip', 3, {'id': 'frame_roundtrip_sp%d_depth%d' % (v, dp), 'defines': ['-DFRAME_VIA_SP=%d' % v, '-DFRAME_DEPTH=%d' % dp, '-DAM_CELLS=4', '-DAM_PCELLS=1'], 'timeout': 600, 'tier': 'quick' if v == 1 else 'thorough'}) for v in (0, 1) for dp in range(5)],
     'trusted_base': ['the induction over cycles (base: the loop instruction; step/exit: one cycle of Run from an arbitrary state satisfying the loop invariant) is the standard loop rule, written out in DESIGN.md 4/C09; CBMC discharges base, step and exit',
                      'the body instruction is abstract under CBMC: it executes (is dispatched) exactly once per cycle and is assumed not to write loop-control state or pc (a straight-line instruction); natively it is a nop through the real decode table'],
-    'assumptions': ['interrupts quiet during the loop (interrupt entry is C08/C06); pc + 2 inside program space', 'rep: the repeated instruction is one word (the statement\'s scope)'],
+    'assumptions': ['interrupts quiet during the loop (interrupt entry is C08/C06); pc + 2 inside program space', 'a repeated instruction is one word (the statement\'s scope); rep with no block active is h_rep_step, rep inside a block (including on the block\'s last instruction) is h_bkrep_step'],
     'not_covered': ['equality with the unrolled program for concrete bodies: follows from the execution count for straight-line bodies, not checked on whole programs'],
 }
